@@ -334,41 +334,56 @@ fn explore_sdd(f: TT, g: TT, n: usize, vt: &VT, depth: usize, rep: &mut Report) 
     }
 }
 
-pub const TD_QUERIES: [&str; 7] = ["wmc<Real>", "wmc<FF64>", "evaluate", "count_nodes", "semantic_hash<FF32>", "cached_semantic_hash<FF64>", "condition"];
+const TD_FIXED: [&str; 6] = ["wmc<Real>", "wmc<FF64>", "evaluate", "count_nodes", "semantic_hash<FF32>", "cached_semantic_hash<FF64>"];
 
-fn td_pool<'a>(b: &'a StandardDecisionNNFBuilder<'a>, f: TT, g: TT, n: usize) -> Vec<BddPtr<'a>> {
+/// decision-DNNF query alphabet: 6 fixed kinds + condition on every literal
+pub fn td_queries(n: usize) -> Vec<(String, Q)> {
+    let mut v: Vec<(String, Q)> = TD_FIXED.iter().enumerate().map(|(i, s)| (s.to_string(), Q::Fixed(i))).collect();
+    for x in 0..n {
+        v.push((format!("condition(x{}=true)", x), Q::Cond(x, true)));
+        v.push((format!("condition(x{}=false)", x), Q::Cond(x, false)));
+    }
+    v
+}
+
+fn td_pool<'a>(b: &'a StandardDecisionNNFBuilder<'a>, f: TT, g: TT, n: usize, kind: u8) -> Vec<BddPtr<'a>> {
     let d1 = b.compile_cnf_topdown(&to_cnf(&cnf_of(f, n)));
+    if kind == 1 {
+        return vec![d1, d1.neg()];
+    }
     let d2 = b.compile_cnf_topdown(&to_cnf(&cnf_of(g, n)));
     vec![d1, d1.neg(), d2, b.condition(d1, VarLabel::new(0), true)]
 }
 
-fn td_query<'a>(b: &'a StandardDecisionNNFBuilder<'a>, p: BddPtr<'a>, q: usize, fx: &Fix) -> Result<String, String> {
+fn td_query<'a>(b: &'a StandardDecisionNNFBuilder<'a>, p: BddPtr<'a>, q: &Q, fx: &Fix) -> Result<String, String> {
     let n = fx.n;
     guarded(|| match q {
-        0 => format!("{:?}", p.unsmoothed_wmc(&fx.real).0.to_bits()),
-        1 => format!("{}", p.unsmoothed_wmc(&fx.ff2).value()),
-        2 => (0..(1usize << n)).map(|a| if p.evaluate(&tt::assignment_vec(a, n)) { '1' } else { '0' }).collect::<String>(),
-        3 => format!("{}", p.count_nodes()),
-        4 => format!("{}", p.semantic_hash(&fx.hmap1).value()),
-        5 => format!("{}", p.cached_semantic_hash(b.order(), &fx.hmap).value()),
-        _ => digest_bdd(b.condition(p, VarLabel::new((n - 1) as u64), false), n),
+        Q::Fixed(0) => format!("{:?}", p.unsmoothed_wmc(&fx.real).0.to_bits()),
+        Q::Fixed(1) => format!("{}", p.unsmoothed_wmc(&fx.ff2).value()),
+        Q::Fixed(2) => (0..(1usize << n)).map(|a| if p.evaluate(&tt::assignment_vec(a, n)) { '1' } else { '0' }).collect::<String>(),
+        Q::Fixed(3) => format!("{}", p.count_nodes()),
+        Q::Fixed(4) => format!("{}", p.semantic_hash(&fx.hmap1).value()),
+        Q::Fixed(_) => format!("{}", p.cached_semantic_hash(b.order(), &fx.hmap).value()),
+        Q::Cond(x, val) => digest_bdd(b.condition(p, VarLabel::new(*x as u64), *val), n),
+        _ => String::new(),
     })
 }
 
-fn explore_td(f: TT, g: TT, n: usize, order: &[usize], depth: usize, rep: &mut Report) {
-    if num_vars(&cnf_of(f, n)) != n || num_vars(&cnf_of(g, n)) != n {
+fn explore_td(f: TT, g: TT, n: usize, order: &[usize], depth: usize, kind: u8, rep: &mut Report) {
+    if num_vars(&cnf_of(f, n)) != n || (kind != 1 && num_vars(&cnf_of(g, n)) != n) {
         return;
     }
     let fx = fixtures(n);
-    let nq = TD_QUERIES.len();
-    let npool = 4;
+    let qs = td_queries(n);
+    let nq = qs.len();
+    let npool = if kind == 1 { 2 } else { 4 };
     let mut reference: Vec<Vec<Result<String, String>>> = Vec::new();
     for q in 0..nq {
         let mut row = Vec::new();
         for m in 0..npool {
             let b = mk_td(order);
-            let pool = td_pool(&b, f, g, n);
-            row.push(td_query(&b, pool[m], q, &fx));
+            let pool = td_pool(&b, f, g, n, kind);
+            row.push(td_query(&b, pool[m], &qs[q].1, &fx));
         }
         reference.push(row);
     }
@@ -386,24 +401,65 @@ fn explore_td(f: TT, g: TT, n: usize, order: &[usize], depth: usize, rep: &mut R
         }
         for s in next.iter() {
             let b = mk_td(order);
-            let pool = td_pool(&b, f, g, n);
+            let pool = td_pool(&b, f, g, n, kind);
             rep.traces += 1;
             for (i, (q, m)) in s.iter().enumerate() {
-                let ans = td_query(&b, pool[*m], *q, &fx);
+                let ans = td_query(&b, pool[*m], &qs[*q].1, &fx);
                 rep.transitions += 1;
-                let case = json!({"kind": "topdown_queries", "f": format!("{:#x}", f), "g": format!("{:#x}", g), "n": n, "order": order, "sequence": s.iter().map(|(q, m)| json!([TD_QUERIES[*q], m])).collect::<Vec<_>>()});
+                let case = json!({"kind": "topdown_queries", "pool_kind": kind, "f": format!("{:#x}", f), "g": format!("{:#x}", g), "n": n, "order": order, "sequence": s.iter().map(|(q, m)| json!([qs[*q].0, m])).collect::<Vec<_>>()});
                 if ans != reference[*q][*m] {
-                    rep.violation("purity:answer-depends-on-history", format!("decision-DNNF {} on pool member {} after {:?}: answer {:?}, fresh copy {:?}", TD_QUERIES[*q], m, &s[..i], ans, reference[*q][*m]), case);
+                    rep.violation("purity:answer-depends-on-history", format!("decision-DNNF {} on pool member {} after {:?}: answer {:?}, fresh copy {:?}", qs[*q].0, m, &s[..i], ans, reference[*q][*m]), case);
                     return;
                 }
                 if !all_scratch_clear(&pool) {
-                    rep.violation("purity:scratch-left", format!("decision-DNNF: after {} on pool member {} (history {:?}) scratch data is left", TD_QUERIES[*q], m, &s[..i]), case);
+                    rep.violation("purity:scratch-left", format!("decision-DNNF: after {} on pool member {} (history {:?}) scratch data is left", qs[*q].0, m, &s[..i]), case);
                     return;
                 }
             }
         }
         rep.states += next.len() as u64;
         seqs = next;
+    }
+}
+
+/// for every first query q1: q1 and then every query (rotated to start after q1), in one builder
+fn long_histories_td(f: TT, n: usize, order: &[usize], rep: &mut Report) {
+    if num_vars(&cnf_of(f, n)) != n {
+        return;
+    }
+    let fx = fixtures(n);
+    let qs = td_queries(n);
+    let npool = 2;
+    let acts: Vec<(usize, usize)> = (0..qs.len()).flat_map(|q| (0..npool).map(move |m| (q, m))).collect();
+    // reference answers on fresh copies
+    let mut reference: Vec<Result<String, String>> = Vec::new();
+    for (q, m) in acts.iter() {
+        let b = mk_td(order);
+        let pool = td_pool(&b, f, 0, n, 1);
+        reference.push(td_query(&b, pool[*m], &qs[*q].1, &fx));
+    }
+    for first in 0..acts.len() {
+        let b = mk_td(order);
+        let pool = td_pool(&b, f, 0, n, 1);
+        rep.traces += 1;
+        rep.states += 1;
+        let mut hist: Vec<usize> = Vec::new();
+        for k in 0..=acts.len() {
+            let i = if k == 0 { first } else { (first + k) % acts.len() };
+            let (q, m) = acts[i];
+            let ans = td_query(&b, pool[m], &qs[q].1, &fx);
+            rep.transitions += 1;
+            let case = || json!({"kind": "topdown_long_history", "f": format!("{:#x}", f), "n": n, "order": order, "first": first, "sequence": hist.iter().map(|&j| json!([qs[acts[j].0].0, acts[j].1])).collect::<Vec<_>>()});
+            if ans != reference[i] {
+                rep.violation("purity:answer-depends-on-history", format!("decision-DNNF of {:#x} (order {:?}): {} on pool member {} after {} earlier queries: answer {:?}, fresh copy {:?}", f, order, qs[q].0, m, hist.len(), ans, reference[i]), case());
+                return;
+            }
+            if !all_scratch_clear(&pool) {
+                rep.violation("purity:scratch-left", format!("decision-DNNF of {:#x} (order {:?}): after {} on pool member {} ({} earlier queries) scratch data is left", f, order, qs[q].0, m, hist.len()), case());
+                return;
+            }
+            hist.push(i);
+        }
     }
 }
 
@@ -434,7 +490,7 @@ fn family(n: usize) -> Vec<(TT, TT)> {
 
 pub fn run(ctx: &Ctx) -> Report {
     let mut rep = Report::new(
-        "pools of node-sharing diagrams (f, not f, a sub-diagram of f, f and g, g, smooth(f), not f or g) built in one builder for a rule-defined family of function pairs (skipped levels, complemented roots, parity, thresholds), n in {3,4}; every sequence of <= d queries (d = 2 quick, 3 thorough for BDDs) over the BDD query alphabet (13 fixed kinds + condition on every literal + exists on every variable + 3 partial models) x 7 pool members, plus every ordered pair of queries on EVERY function of 3 variables (every 16th of 4 in thorough) under every order, 8 SDD query kinds x 5 members, 7 decision-DNNF query kinds x 4 members; every answer must equal the answer on a freshly built copy in a fresh builder and every node reachable from the pool must have empty scratch after every call; a state is a distinct query sequence",
+        "pools of node-sharing diagrams (f, not f, a sub-diagram of f, f and g, g, smooth(f), not f or g) built in one builder for a rule-defined family of function pairs (skipped levels, complemented roots, parity, thresholds), n in {3,4}; every sequence of <= d queries (d = 2 quick, 3 thorough for BDDs) over the BDD query alphabet (13 fixed kinds + condition on every literal + exists on every variable + 3 partial models) x 7 pool members, plus every ordered pair of queries on EVERY function of 3 variables (every 16th of 4 in thorough) under every order, 8 SDD query kinds x 5 members, the decision-DNNF alphabet (6 fixed kinds + condition on every literal) x 4 members, plus every ordered pair of those queries on the top-down diagram of EVERY function of 3 variables under every order; every answer must equal the answer on a freshly built copy in a fresh builder and every node reachable from the pool must have empty scratch after every call; a state is a distinct query sequence",
     );
     let depth = ctx.tier.pick(2, 3);
     let mut items: Vec<(u8, usize, TT, TT, Vec<usize>, VT)> = Vec::new();
@@ -460,9 +516,15 @@ pub fn run(ctx: &Ctx) -> Report {
             items.push((3, 3, start, 4, o.clone(), VT::Leaf(0)));
         }
     }
+    for o in permutations(3) {
+        for start in 0..4u64 {
+            items.push((4, 3, start, 4, o.clone(), VT::Leaf(0)));
+        }
+    }
     if ctx.tier == Tier::Thorough {
         for o in permutations(4) {
             for start in 0..4u64 {
+                items.push((4, 4, start * 8 + 3, 64, o.clone(), VT::Leaf(0)));
                 items.push((3, 4, start * 4 + 1, 16, o.clone(), VT::Leaf(0)));
             }
         }
@@ -486,7 +548,28 @@ pub fn run(ctx: &Ctx) -> Report {
                 }
             }
             1 => explore_sdd(*f, *g, *n, vt, depth.min(3), &mut r),
-            _ => explore_td(*f, *g, *n, o, depth.min(3), &mut r),
+            4 => {
+                // every function of n variables as a top-down diagram, every ordered pair of queries
+                let total = 1u64 << (1u64 << *n);
+                let mut t = *f;
+                let mut k = 0u64;
+                while t < total {
+                    // isolated ordered pairs of queries (a fresh builder per pair) for a slice of
+                    // the functions, and for every function one long history per first query:
+                    // q1 followed by every query in rotated order, all in one builder
+                    let every = if ctx.tier == Tier::Quick { 8 } else { 1 };
+                    if k % every == 0 {
+                        explore_td(t, 0, *n, o, 2, 1, &mut r);
+                    }
+                    long_histories_td(t, *n, o, &mut r);
+                    if r.n_violations > 4 {
+                        break;
+                    }
+                    t += *g;
+                    k += 1;
+                }
+            }
+            _ => explore_td(*f, *g, *n, o, depth.min(3), 0, &mut r),
         }
         r
     });
@@ -513,7 +596,8 @@ pub fn replay(ctx: &Ctx, case: &Value) -> Report {
     match case["kind"].as_str() {
         Some("bdd_queries") => explore_bdd(f, g, n, &arr(&case["order"]), depth, case["pool_kind"].as_u64().unwrap_or(0) as u8, &mut rep),
         Some("sdd_queries") => explore_sdd(f, g, n, &VT::parse(case["vtree"].as_str().unwrap_or("0")).unwrap_or(VT::Leaf(0)), depth, &mut rep),
-        Some("topdown_queries") => explore_td(f, g, n, &arr(&case["order"]), depth, &mut rep),
+        Some("topdown_long_history") => long_histories_td(f, n, &arr(&case["order"]), &mut rep),
+        Some("topdown_queries") => explore_td(f, g, n, &arr(&case["order"]), depth, case["pool_kind"].as_u64().unwrap_or(0) as u8, &mut rep),
         _ => {}
     }
     rep
